@@ -168,6 +168,16 @@ func runC48(c *Ctx) {
 	checkConfigEscapes(c, "config-escape-tables")
 	c.Floor("config-escape-tables", 3)
 	PackagesStateFree(c, "codec-state-free", "plumbing/format/config")
+	// the decoder's callback is told section and subsection with every option; state it keeps between options must
+	// follow both names
+	const rcb = "cached-subsection-follows-section"
+	if dec := c.MustFunc(rcb, "plumbing/format/config.(*Decoder).Decode"); dec != nil {
+		c.Analysed(dec)
+		if DerivedCacheFollowsOwner(c, rcb, dec) == 0 {
+			c.Hold(rcb, dec.Name(), dec.Decl.Pos(), "the callback keeps no value derived from another between options: sections and subsections are looked up by the names given with each option")
+		}
+	}
+	c.Floor(rcb, 1)
 	pk := p.Pkg("config")
 	if pk == nil {
 		c.Unresolved("config-key-coverage", "package config", 0, "not loaded")
@@ -706,6 +716,92 @@ func runC07(c *Ctx) {
 		ok := len(f.Locs(base)) > 0 && len(f.Locs(setOff)) > 0 && f.Search(SearchOpts{Starts: []Loc{f.Entry()}, Sink: setOff, Barrier: base}) == nil
 		c.Check(ok, r3, en.Name(), en.Decl.Pos(), "a delta's base is written before the delta's offset is recorded")
 	}
+
+	// A delta takes the type of its base when the pack is read: a tree stored as a delta of a blob comes back as a blob
+	// with another ID. Every attempt to deltify a target against a base is therefore reachable only where the two are
+	// known to have the same type — at the call site, or inside the callee before it records the delta.
+	const r4 = "delta-base-same-type"
+	n4 := 0
+	typeEq := func(a, b types.Object) PassEdge {
+		isTypeOf := func(e ast.Expr, o types.Object) bool {
+			call, ok := unparen(e).(*ast.CallExpr)
+			if !ok || len(call.Args) != 0 {
+				return false
+			}
+			sel, ok := unparen(call.Fun).(*ast.SelectorExpr)
+			return ok && sel.Sel.Name == "Type" && objOf(info, sel.X) == o
+		}
+		return FactGuard(func(_ *Flow, fact Fact) bool {
+			be, ok := unparen(fact.Atom).(*ast.BinaryExpr)
+			if !ok {
+				return false
+			}
+			eq := (be.Op == token.EQL && fact.Truth) || (be.Op == token.NEQ && !fact.Truth)
+			return eq && ((isTypeOf(be.X, a) && isTypeOf(be.Y, b)) || (isTypeOf(be.X, b) && isTypeOf(be.Y, a)))
+		})
+	}
+	if td := c.MustFunc(r4, pfShort+".(*DeltaSelector).tryToDeltify"); td != nil {
+		// does the callee guard itself? every SetDelta call behind the equality of its two object parameters' types
+		var objParams []types.Object
+		for _, po := range paramObjs(info, td.Decl) {
+			if strings.HasSuffix(types.TypeString(po.Type(), nil), "ObjectToPack") {
+				objParams = append(objParams, po)
+			}
+		}
+		calleeGuards := false
+		if len(objParams) == 2 {
+			tf := p.FlowOf(td)
+			sets := tf.Locs(CallNode(false, callsNamed(info, "SetDelta")))
+			calleeGuards = len(sets) > 0
+			for _, l := range sets {
+				if tf.UnguardedPath(typeEq(objParams[0], objParams[1]), l) != nil {
+					calleeGuards = false
+				}
+			}
+		}
+		for _, fi := range p.FuncsIn(pfShort) {
+			if fi.Decl.Body == nil || p.isTestFile(fi.Decl.Pos()) {
+				continue
+			}
+			f := (*Flow)(nil)
+			k := 0
+			walkCalls(fi.Decl.Body, false, func(call *ast.CallExpr) {
+				if Callee(info, call) != td.Obj {
+					return
+				}
+				k++
+				n4++
+				c.Analysed(fi)
+				key := fi.Name() + "->tryToDeltify" + ifStr(k > 1, "#"+itoa(k))
+				if calleeGuards {
+					c.Hold(r4, key, call.Pos(), "tryToDeltify records a delta only where its two objects have the same type")
+					return
+				}
+				var args []types.Object
+				for _, a := range call.Args {
+					if o := objOf(info, a); o != nil && strings.HasSuffix(types.TypeString(o.Type(), nil), "ObjectToPack") {
+						args = append(args, o)
+					}
+				}
+				if len(args) != 2 {
+					c.Violate(r4, key, call.Pos(), "the base and the target of the attempt are not plain variables: their types cannot be related")
+					return
+				}
+				if f == nil {
+					f = p.FlowOf(fi)
+				}
+				bad := false
+				for _, l := range f.Locs(func(nd ast.Node) bool { return nodeHasCall(nd, false, func(cc *ast.CallExpr) bool { return cc == call }) != nil }) {
+					if f.UnguardedPath(typeEq(args[0], args[1]), l) != nil {
+						bad = true
+					}
+				}
+				c.Check(!bad, r4, key, call.Pos(), orStr(ifStr(bad, "a target is deltified against a base whose type was not compared with its own (`"+args[0].Name()+".Type() == "+args[1].Name()+".Type()`): a delta takes its base's type when the pack is read, so a tree stored against a blob comes back as a blob with another ID"),
+					"reachable only where base and target have the same type"))
+			})
+		}
+	}
+	c.Floor(r4, 1)
 }
 
 func runC01(c *Ctx) {
